@@ -64,6 +64,8 @@ func c06(r *Run) {
 	r.rule("C06.R5", "K10", "Transfer.StateKeys declares actor Read|Write and recipient All", 1)
 	// imported: faithful delete/re-create/delete inside one view (root module)
 	defer r.importRules(c04, "C04.R3", "C04.R1")
+	// the fee charged to a failed transaction survives the rollback of its actions (supply shrinks by exactly the reported fee)
+	defer r.importRules(c03, "C03.R3")
 
 	ex := r.fn(w, "C06.R1", "(*"+pkgMActions+".Transfer).Execute")
 	if ex != nil {
